@@ -47,51 +47,70 @@ theorem derived_eq (L : ObsLoop) (i : Int) : L.derived i = wrap32 (L.c + L.m * i
     · rename_i h; rw [h, Int.one_mul, Int.add_comm]
     · rw [wrap32_add_left, Int.add_comm, Int.mul_comm]
 
-theorem tripLT_exact (i0 step bound n : Int) (h : tripLT i0 step bound = .count n) :
-    0 ≤ n ∧ (∀ k : Int, 0 ≤ k → k < n → i0 ≤ i0 + step * k ∧ i0 + step * k < bound) ∧ ¬ (i0 + step * n < bound) := by
+theorem tripLT_exact (i0 step bound mx n : Int) (h : tripLT i0 step bound mx = .count n) :
+    0 ≤ n ∧ (∀ k : Int, 0 ≤ k → k < n → i0 ≤ i0 + step * k ∧ i0 + step * k < bound) ∧
+    ¬ (i0 + step * n < bound) ∧ i0 ≤ i0 + step * n ∧ i0 + step * n ≤ max mx i0 := by
   unfold tripLT at h
   split at h
   · injection h with h; subst h
-    refine ⟨by omega, ?_, ?_⟩
+    refine ⟨by omega, ?_, ?_, ?_, ?_⟩
     · intro k h0 h1; omega
+    · simp; omega
+    · simp
     · simp; omega
   · split at h
     · simp at h
     · rename_i hb hs
       simp only at h
-      split at h
-      · simp at h
-      · injection h with h
-        have hd : 0 < bound - i0 := by omega
-        have hs' : 0 < step := by omega
-        generalize hdd : bound - i0 = d at *
-        have e1 : Int.tdiv d step = d / step := Int.tdiv_eq_ediv_of_nonneg (by omega)
-        have e2 : Int.tmod d step = d % step := Int.tmod_eq_emod_of_nonneg (by omega)
-        rw [e1, e2] at h
-        have hq : step * (d / step) + d % step = d := Int.mul_ediv_add_emod d step
-        have hr0 : 0 ≤ d % step := Int.emod_nonneg d (by omega)
-        have hr1 : d % step < step := Int.emod_lt_of_pos d hs'
-        have hqn : 0 ≤ d / step := Int.ediv_nonneg (by omega) (by omega)
-        generalize d / step = q at *
-        generalize d % step = r at *
-        by_cases hr : r = 0
-        · simp [hr] at h
-          subst h
-          refine ⟨hqn, ?_, ?_⟩
-          · intro k h0 h1
-            have : step * k ≤ step * (q - 1) := Int.mul_le_mul_of_nonneg_left (by omega) (by omega)
-            rw [Int.mul_sub, Int.mul_one] at this
-            have : 0 ≤ step * k := Int.mul_nonneg (by omega) h0
-            omega
-          · omega
-        · simp [hr] at h
-          subst h
-          refine ⟨by omega, ?_, ?_⟩
-          · intro k h0 h1
-            have : step * k ≤ step * q := Int.mul_le_mul_of_nonneg_left (by omega) (by omega)
-            have : 0 ≤ step * k := Int.mul_nonneg (by omega) h0
-            omega
-          · rw [Int.mul_add, Int.mul_one]; omega
+      have hd : 0 < bound - i0 := by omega
+      have hs' : 0 < step := by omega
+      generalize hdd : bound - i0 = d at *
+      have e1 : Int.tdiv d step = d / step := Int.tdiv_eq_ediv_of_nonneg (by omega)
+      have e2 : Int.tmod d step = d % step := Int.tmod_eq_emod_of_nonneg (by omega)
+      rw [e1, e2] at h
+      have hq : step * (d / step) + d % step = d := Int.mul_ediv_add_emod d step
+      have hr0 : 0 ≤ d % step := Int.emod_nonneg d (by omega)
+      have hr1 : d % step < step := Int.emod_lt_of_pos d hs'
+      have hqn : 0 ≤ d / step := Int.ediv_nonneg (by omega) (by omega)
+      generalize d / step = q at *
+      generalize d % step = r at *
+      by_cases hr : r = 0
+      · simp only [hr, ne_eq, not_true_eq_false, if_false, Int.add_zero] at h
+        split at h
+        · simp at h
+        · split at h
+          · simp at h
+          · rename_i hfin hfit
+            injection h with h
+            subst h
+            have hpos : 0 ≤ step * q := Int.mul_nonneg (by omega) hqn
+            refine ⟨hqn, ?_, ?_, ?_, ?_⟩
+            · intro k h0 h1
+              have : step * k ≤ step * (q - 1) := Int.mul_le_mul_of_nonneg_left (by omega) (by omega)
+              rw [Int.mul_sub, Int.mul_one] at this
+              have : 0 ≤ step * k := Int.mul_nonneg (by omega) h0
+              omega
+            · omega
+            · omega
+            · omega
+      · simp only [hr, ne_eq, not_false_eq_true, if_true] at h
+        split at h
+        · simp at h
+        · split at h
+          · simp at h
+          · rename_i hfin hfit
+            injection h with h
+            subst h
+            have hpos : 0 ≤ step * q := Int.mul_nonneg (by omega) hqn
+            rw [Int.mul_add, Int.mul_one] at hfin ⊢
+            refine ⟨by omega, ?_, ?_, ?_, ?_⟩
+            · intro k h0 h1
+              have : step * k ≤ step * q := Int.mul_le_mul_of_nonneg_left (by omega) (by omega)
+              have : 0 ≤ step * k := Int.mul_nonneg (by omega) h0
+              omega
+            · omega
+            · omega
+            · omega
 
 theorem iterW_eq (i0 step : Int) (hi : InRange i0) (k : Nat) :
     iterW i0 step k = wrap32 (i0 + step * (k : Int)) := by
@@ -102,48 +121,128 @@ theorem iterW_eq (i0 step : Int) (hi : InRange i0) (k : Nat) :
     congr 1
     rw [Int.natCast_succ, Int.mul_add, Int.mul_one, Int.add_assoc]
 
-/-- Ideal (unbounded-integer) reading of the closed form, for all four guard kinds: the guard holds
-at steps `0..n-1` (with the counter staying between the initial value and the bound) and fails at
-step `n`. -/
-theorem tripCount_ideal (g : Guard) (i0 step bound n : Int) (h : tripCount g i0 step bound = .count n) :
+/-- Reading of the closed form for all four guard kinds: the guard holds at steps `0..n-1` (with the
+counter staying between the initial value and the bound), fails at step `n`, and the counter value
+at step `n` is still a 32-bit value (this is what the `maxFinal` test of the code guarantees). -/
+theorem tripCount_ideal (g : Guard) (i0 step bound n : Int) (hi : InRange i0)
+    (h : tripCount g i0 step bound = .count n) :
     0 ≤ n ∧
     (∀ k : Int, 0 ≤ k → k < n → g.holds (i0 + step * k) bound = true ∧
         ((i0 ≤ i0 + step * k ∧ i0 + step * k ≤ bound) ∨ (bound ≤ i0 + step * k ∧ i0 + step * k ≤ i0))) ∧
-    g.holds (i0 + step * n) bound = false := by
+    g.holds (i0 + step * n) bound = false ∧ InRange (i0 + step * n) := by
+  unfold InRange at hi
   cases g <;> simp only [tripCount] at h
   case lt =>
-    obtain ⟨h0, h1, h2⟩ := tripLT_exact _ _ _ _ h
-    refine ⟨h0, fun k hk0 hk1 => ?_, ?_⟩
+    obtain ⟨h0, h1, h2, h3, h4⟩ := tripLT_exact _ _ _ _ _ h
+    refine ⟨h0, fun k hk0 hk1 => ?_, ?_, ?_⟩
     · have := h1 k hk0 hk1
       simp only [Guard.holds, decide_eq_true_eq]; omega
     · simp only [Guard.holds, decide_eq_false_iff_not]; exact h2
+    · unfold InRange; omega
   case le =>
-    split at h
-    · obtain ⟨h0, h1, h2⟩ := tripLT_exact _ _ _ _ h
-      refine ⟨h0, fun k hk0 hk1 => ?_, ?_⟩
-      · have := h1 k hk0 hk1
-        simp only [Guard.holds, decide_eq_true_eq]; omega
-      · simp only [Guard.holds, decide_eq_false_iff_not]; omega
-    · simp at h
+    obtain ⟨h0, h1, h2, h3, h4⟩ := tripLT_exact _ _ _ _ _ h
+    refine ⟨h0, fun k hk0 hk1 => ?_, ?_, ?_⟩
+    · have := h1 k hk0 hk1
+      simp only [Guard.holds, decide_eq_true_eq]; omega
+    · simp only [Guard.holds, decide_eq_false_iff_not]; omega
+    · unfold InRange; omega
   case gt =>
-    split at h
-    · obtain ⟨h0, h1, h2⟩ := tripLT_exact _ _ _ _ h
-      refine ⟨h0, fun k hk0 hk1 => ?_, ?_⟩
-      · have := h1 k hk0 hk1
-        rw [Int.neg_mul] at this
-        simp only [Guard.holds, decide_eq_true_eq]; omega
-      · rw [Int.neg_mul] at h2
-        simp only [Guard.holds, decide_eq_false_iff_not]; omega
-    · simp at h
+    obtain ⟨h0, h1, h2, h3, h4⟩ := tripLT_exact _ _ _ _ _ h
+    rw [Int.neg_mul] at h2 h3 h4
+    refine ⟨h0, fun k hk0 hk1 => ?_, ?_, ?_⟩
+    · have := h1 k hk0 hk1
+      rw [Int.neg_mul] at this
+      simp only [Guard.holds, decide_eq_true_eq]; omega
+    · simp only [Guard.holds, decide_eq_false_iff_not]; omega
+    · unfold InRange; omega
   case ge =>
-    split at h
-    · obtain ⟨h0, h1, h2⟩ := tripLT_exact _ _ _ _ h
-      refine ⟨h0, fun k hk0 hk1 => ?_, ?_⟩
-      · have := h1 k hk0 hk1
-        rw [Int.neg_mul] at this
-        simp only [Guard.holds, decide_eq_true_eq]; omega
-      · rw [Int.neg_mul] at h2
-        simp only [Guard.holds, decide_eq_false_iff_not]; omega
-    · simp at h
+    obtain ⟨h0, h1, h2, h3, h4⟩ := tripLT_exact _ _ _ _ _ h
+    rw [Int.neg_mul] at h2 h3 h4
+    refine ⟨h0, fun k hk0 hk1 => ?_, ?_, ?_⟩
+    · have := h1 k hk0 hk1
+      rw [Int.neg_mul] at this
+      simp only [Guard.holds, decide_eq_true_eq]; omega
+    · simp only [Guard.holds, decide_eq_false_iff_not]; omega
+    · unfold InRange; omega
+theorem derivedOf_eq (m c i : Int) : derivedOf m c i = wrap32 (c + m * i) := by
+  unfold derivedOf mulT addT
+  split
+  · rename_i h; rw [h, Int.zero_add, Int.mul_comm]
+  · split
+    · rename_i h; rw [h, Int.one_mul, Int.add_comm]
+    · rw [wrap32_add_left, Int.add_comm, Int.mul_comm]
+theorem iterW_wrap_step (i0 st : Int) (k : Nat) : iterW i0 (wrap32 st) k = iterW i0 st k := by
+  induction k with
+  | zero => rfl
+  | succ k ih => simp only [iterW, ih, wrap32_add_right]
+theorem strength_iter (i0 st m c : Int) (k : Nat) :
+    iterW (addT c (mulT m i0)) (wrap32 (st * m)) k = derivedOf m c (iterW i0 st k) := by
+  rw [iterW_wrap_step, derivedOf_eq]
+  induction k with
+  | zero => simp only [iterW, addT, mulT, wrap32_add_right]
+  | succ k ih =>
+    simp only [iterW]
+    rw [ih, wrap32_add_left]
+    have h1 : wrap32 (c + m * wrap32 (iterW i0 st k + st))
+        = wrap32 (c + m * (iterW i0 st k + st)) := by
+      rw [← wrap32_add_right c (m * wrap32 _), wrap32_mul_right, wrap32_add_right]
+    rw [h1]
+    congr 1
+    grind
+
+theorem iterW_succ' (i0 st : Int) (k : Nat) : iterW i0 st (k + 1) = addT (iterW i0 st k) st := rfl
+
+theorem derived_is_derivedOf (L : ObsLoop) (i : Int) : L.derived i = derivedOf L.m L.c i := rfl
+
+theorem addT_mulT_eq (m c i : Int) : addT c (mulT m i) = wrap32 (c + m * i) := by
+  unfold addT mulT; rw [wrap32_add_right]
+
+/-- index form of the original loop -/
+theorem runStrength_eq (L : ObsLoop) (fuel k : Nat) (last : Int) (acc : List Int) :
+    runStrength L (wrap32 (L.step * L.m)) fuel (iterW L.i0 L.step k)
+      (iterW (addT L.c (mulT L.m L.i0)) (wrap32 (L.step * L.m)) k) last acc
+    = runOrig L fuel (iterW L.i0 L.step k) last acc := by
+  induction fuel generalizing k last acc with
+  | zero => rfl
+  | succ fuel ih =>
+    simp only [runStrength, runOrig]
+    split
+    · have := ih (k + 1) (iterW (addT L.c (mulT L.m L.i0)) (wrap32 (L.step * L.m)) k) (acc ++ [last])
+      rw [iterW_succ', iterW_succ'] at this
+      rw [this, strength_iter, derived_is_derivedOf]
+    · rfl
+
+theorem runElim_eq (L : ObsLoop) (n : Nat)
+    (hbr : BreaksAt L.g L.i0 L.step L.bound n)
+    (hg : ∀ k, k ≤ n →
+      decide (iterW (addT L.c (mulT L.m L.i0)) (wrap32 (L.step * L.m)) k < addT L.c (mulT L.m L.bound))
+        = L.g.holds (iterW L.i0 L.step k) L.bound)
+    (fuel k : Nat) (hk : k ≤ n) (last : Int) (acc : List Int) :
+    runElim (addT L.c (mulT L.m L.i0)) (wrap32 (L.step * L.m)) (addT L.c (mulT L.m L.bound)) fuel
+      (iterW (addT L.c (mulT L.m L.i0)) (wrap32 (L.step * L.m)) k) last acc
+    = runOrig L fuel (iterW L.i0 L.step k) last acc := by
+  induction fuel generalizing k last acc with
+  | zero => rfl
+  | succ fuel ih =>
+    simp only [runElim, runOrig]
+    have hgk := hg k hk
+    by_cases hh : L.g.holds (iterW L.i0 L.step k) L.bound = true
+    · have hlt : iterW (addT L.c (mulT L.m L.i0)) (wrap32 (L.step * L.m)) k < addT L.c (mulT L.m L.bound) := by
+        rw [hh] at hgk; exact of_decide_eq_true hgk
+      have hkn : k < n := by
+        rcases Nat.lt_or_ge k n with h | h
+        · exact h
+        · have : k = n := by omega
+          subst this; rw [hbr.2] at hh; exact absurd hh (by simp)
+      simp only [hh, hlt, if_true]
+      have := ih (k + 1) (by omega) (iterW (addT L.c (mulT L.m L.i0)) (wrap32 (L.step * L.m)) k) (acc ++ [last])
+      rw [iterW_succ', iterW_succ'] at this
+      rw [this, strength_iter, derived_is_derivedOf]
+    · have hnlt : ¬ iterW (addT L.c (mulT L.m L.i0)) (wrap32 (L.step * L.m)) k < addT L.c (mulT L.m L.bound) := by
+        intro hlt
+        have : decide (iterW (addT L.c (mulT L.m L.i0)) (wrap32 (L.step * L.m)) k < addT L.c (mulT L.m L.bound)) = true := decide_eq_true hlt
+        rw [hgk] at this; exact hh this
+      simp only [hh, hnlt, if_false]
+      rfl
 
 end SamVerif.Opt
